@@ -14,7 +14,7 @@ Inductive cop :=
 | RemoveUseless
 | FirstOrder
 | Surface (surf : list (nat * list (list nat))) (remove : bool)
-| Facets (f : list (nat * list conn)).
+| Facets (raw : list (nat * list conn)).   (* all faces, per width, before duplicate removal *)
 
 Definition apply_op (c : cfg) (m : mesh row) (o : cop) : option (mesh row) :=
   match o with
@@ -25,7 +25,7 @@ Definition apply_op (c : cfg) (m : mesh row) (o : cop) : option (mesh row) :=
   | RemoveUseless => remove_useless_nodes c m
   | FirstOrder => to_first_order c m
   | Surface s r => to_surface c m s r
-  | Facets f => Some (to_facets m f)
+  | Facets raw => Some (to_facets m (map (fun g => (fst g, remove_duplicates (snd g))) raw))
   end.
 
 (* edits through the public update API before the extraction:
@@ -55,8 +55,14 @@ Definition elemental_eqb :=
    its elements (ids, types, connectivity in summary order) *)
 Record mobs := { ob_mesh : mesh row; ob_ids : list Z; ob_types : list nat; ob_data : list row }.
 
-Definition check (c : cfg) (m0 : mesh row) (pre : list edit) (o : cop) (ob : option mobs) : list nat :=
-  let m := fold_left apply_edit pre m0 in
+(* removed_first: remove_useless_nodes() was called on the object before the
+   operation (the only operation that changes the object); every other earlier
+   call (the same or another extraction, extract_surface, extract_facets) must
+   leave the object as it was, so the model ignores it *)
+Definition check (c : cfg) (m0 : mesh row) (pre : list edit) (removed_first : bool) (o : cop)
+           (ob : option mobs) : list nat :=
+  let m1 := fold_left apply_edit pre m0 in
+  let m := if removed_first then match remove_useless_nodes c m1 with Some x => x | None => m1 end else m1 in
   if negb (wf_mesh m) then [99%nat] else
   match apply_op c m o, ob with
   | None, None => []
